@@ -10,7 +10,7 @@
    before /repo commit 4911de9 emitted; the current code and its model never produce it -- the theorems show it.)
    Not proved (validated by the Coq-extracted specification oracle instead): the 1.5-unit on-polyline clause and
    the total-length clause, which depend on the accuracy of the binary64 intersection point. *)
-From Clip Require Import base.Geom base.FloatModel model.RectLeaf model.RectLines proofs.RectLines proofs.RectFloat.
+From Clip Require Import base.Geom base.FloatModel model.RectLeaf model.RectLines proofs.RectLines proofs.RectFloat proofs.RectLinesPaths.
 From Coq Require Import ZArith List Sorted.
 Local Open Scope Z_scope.
 
@@ -79,6 +79,26 @@ Theorem C09_short_paths :
   forall gsi r path, (length path < 2)%nat -> rect_clip_lines_g gsi r path = Ok [].
 Proof. exact lines_short. Qed.
 Print Assumptions C09_short_paths.
+
+(* several polylines in one call (RectClipLines64::Execute clears results_/op_container_/start_locs_ per path):
+   the result is the concatenation, in input order, of what each polyline gives alone ... *)
+Theorem C09_paths_stateless :
+  forall r ps, rect_clip_lines_paths r ps = Ok (concat (map (rect_clip_lines r) ps)).
+Proof. exact lines_paths_stateless. Qed.
+Print Assumptions C09_paths_stateless.
+
+Theorem C09_paths_app :
+  forall r ps qs a b, rect_clip_lines_paths r ps = Ok a -> rect_clip_lines_paths r qs = Ok b ->
+    rect_clip_lines_paths r (ps ++ qs) = Ok (a ++ b).
+Proof. exact lines_paths_app. Qed.
+Print Assumptions C09_paths_app.
+
+(* ... and a path of fewer than two points anywhere in the call changes nothing for the other polylines *)
+Theorem C09_paths_short_skipped :
+  forall r ps q qs, (length q < 2)%nat ->
+    rect_clip_lines_paths r (ps ++ q :: qs) = rect_clip_lines_paths r (ps ++ qs).
+Proof. exact lines_paths_short_skipped. Qed.
+Print Assumptions C09_paths_short_skipped.
 
 (* safety: the bounds-checked, fuelled model never reports an out-of-bounds access (path[i], path[i-1]) and never
    runs out of fuel; the fuel of the main loop is 2*len+2 iterations *)
